@@ -53,6 +53,9 @@ def build():
     lock = open(CACHE / "lean.lock", "w")
     fcntl.flock(lock, fcntl.LOCK_EX)
     try:
+        from harness.translate import run_all
+
+        tr = run_all.main()  # regenerate Generated/*.lean from /repo's working tree (rewritten only when changed)
         key = _src_hash()
         stamp = CACHE / "lean_build.json"
         if stamp.exists():
@@ -85,7 +88,7 @@ def build():
             axioms[m.group(1)] = [a.strip() for a in m.group(2).replace("\n", " ").split(",") if a.strip()]
         for m in re.finditer(r"'([^']+)' does not depend on any axioms", txt):
             axioms[m.group(1)] = []
-        d = {"key": key, "rc": pr.returncode, "failed_modules": sorted(set(failed)), "errors": errors, "forbidden": bad, "axioms": axioms, "audit_errors": re.findall(r"error: (.*)", txt)[:10], "wall": round(time.time() - t0, 1)}
+        d = {"key": key, "translators": tr, "rc": pr.returncode, "failed_modules": sorted(set(failed)), "errors": errors, "forbidden": bad, "axioms": axioms, "audit_errors": re.findall(r"error: (.*)", txt)[:10], "wall": round(time.time() - t0, 1)}
         stamp.write_text(json.dumps(d, indent=1))
         return d
     finally:
@@ -94,7 +97,6 @@ def build():
 
 
 def _cert_names():
-    p = LEAN / "XonshCerts.lean"
     names = []
     for f in sorted((LEAN / "XonshCerts").glob("*.lean")) if (LEAN / "XonshCerts").exists() else []:
         for m in re.finditer(r"^theorem\s+(\S+)", strip_comments(f.read_text()), re.M):
@@ -102,7 +104,14 @@ def _cert_names():
     return names
 
 
-CERTS = {}  # property -> [(theorem name, module, human description)] ; filled in by harness/translate
+_B = "XonshCerts.Basic"
+CERTS = {
+    "C01": [("XVC.ir_complete", _B)],
+    "C02": [("XVC.ir_complete", _B), ("XVC.errortoken_unmatched", _B), ("XVC.start_demands_endmarker", _B)],
+    "C03": [("XVC.ir_complete", _B)],
+    "C06": [("XVC.bracket_method_table", _B)],
+    "C18": [("XVC.ir_complete", _B)],
+}
 
 
 def obligations(rep, pid, tier):
@@ -164,4 +173,33 @@ def corr_c06(rep, tier):
         rep.extra.setdefault("correspondence_disagreements", []).append(b)
 
 
-CORR = {"C06": corr_c06}
+def _peg_sources(pid, tier, n_gen, damaged=True, xonsh=True):
+    from harness.common import rng
+    from harness.gen import corpus, mutate, pyprog, xonshgen
+
+    r = rng(pid, "pegcorr")
+    srcs = list(corpus.PY_STMTS) + ["x = " + s + "\n" for s in corpus.FSTRINGS if "\n" not in s]
+    if xonsh:
+        srcs += list(xonshgen.XONSH_STMTS) + [p[0] + "\n" for p in corpus.xonsh_pairs()]
+    for _ in range(n_gen):
+        g = pyprog.gen_program(r, fstrings=True, maxdepth=3, nstmts=r.randint(1, 3))
+        if g:
+            srcs.append(g[0])
+    if damaged:
+        srcs += [mutate.damage(s, r) for s in srcs[: max(100, n_gen)]]
+    return srcs
+
+
+def corr_peg(pid, n_quick=250, n_thorough=6000, **kw):
+    def run(rep, tier):
+        from harness import corr
+
+        cases = corr.peg_cases(_peg_sources(pid, tier, n_quick if tier == "quick" else n_thorough, **kw))
+        bad = corr.run_peg_correspondence(rep, cases)
+        for b in bad[:3]:
+            rep.extra.setdefault("correspondence_disagreements", []).append(b)
+
+    return run
+
+
+CORR = {"C06": corr_c06, "C01": corr_peg("C01", xonsh=False), "C02": corr_peg("C02"), "C03": corr_peg("C03"), "C18": corr_peg("C18")}
